@@ -678,7 +678,11 @@ class MementoFunctionHashRule(HashRule):
         # pointing to a memento function is now pointing to something else, or even undefined
         # so detect if that happened, else return `False`.
         new_fn = self.resolver()
-        return not isinstance(new_fn, MementoFunctionType)
+        # ... or to a different memento function
+        return (
+            not isinstance(new_fn, MementoFunctionType)
+            or new_fn is not self.memento_fn
+        )
 
     def __repr__(self):
         return f"MementoFunctionHashRule(key={repr(self.key)})"
